@@ -183,6 +183,22 @@ func rC10Call(w *World, r *Report) {
 				}
 			}
 			ru.Check(!early, "Dispatch/direct", w.IPos(fnTest), "apart from help and a missing required option nothing returns before the command's function is looked at", "Dispatch can return (e.g. print a landing help) although the selected command has a function: the function would not run")
+			// and once the function is known to exist, it is called: no path from the non-nil edge returns without the call
+			for k := 0; k < 2; k++ {
+				nonNil := false
+				for _, f := range condFacts(fnTest.Cond, k == 0, fnTest) {
+					if f.Op == token.NEQ && f.Y != nil && isNilConst(f.Y) {
+						if _, ok := loadOfFieldNamed(f.X, "CommandFn"); ok {
+							nonNil = true
+						}
+					}
+				}
+				if !nonNil {
+					continue
+				}
+				okCall, _ := ig.mustPass(ig.edgeStart(fnTest.Block(), k), func(in ssa.Instruction) bool { return in == ssa.Instruction(d) }, func(in ssa.Instruction) bool { _, r := in.(*ssa.Return); return r })
+				ru.Check(okCall, "Dispatch/function-runs", w.IPos(fnTest), "a command that has a function always gets it called", "between the test that the command has a function and the call, Dispatch can return: the function is not invoked (exactly one user function must run)")
+			}
 		}
 	}
 	// no function: no user call, an error or help
@@ -256,6 +272,21 @@ func rC10Descent(w *World, r *Report) {
 			}
 		}
 		ru.Check(okVal, "descent/target", pos, "new cursor = the table entry whose key matched", "the cursor is set to a node other than the matched command's")
+		// after a descent the parse goes on with the next token at the new level (deeper commands and the command's own
+		// options follow): no path from the move returns before the loop head is reached again
+		{
+			term := pred.Instrs[len(pred.Instrs)-1]
+			seen := m.ig.reachFromE([]int{m.ig.idx[term]}, func(in ssa.Instruction) bool { return in == ssa.Instruction(m.mainNext) }, m.normalEdgeOK)
+			stops := false
+			for i, sn := range seen {
+				if sn {
+					if _, isRet := m.ig.instrs[i].(*ssa.Return); isRet {
+						stops = true
+					}
+				}
+			}
+			ru.Check(!stops, "descent/continues", pos, "the next token is parsed at the new level", "the parser can stop right after selecting a command: what follows the command name (sub-commands, its options) is not interpreted")
+		}
 		// fresh plain token
 		okTerm := m.termIf != nil && edgeDominates(m.termIf.Block(), 1-m.termTrue, pred)
 		ru.Check(okTerm, "descent/not-terminator", pos, "only for tokens other than `--`", "a command can be selected by / after the terminator")
@@ -361,20 +392,56 @@ func rC10CopyOptions(w *World, r *Report) {
 			}
 		}
 		// the help command of the level never receives the options (its required ones would gate `prog help`)
-		helpExcluded := false
-		for _, f := range factsAt(mu.Block()) {
-			if f.Op != token.NEQ || f.Y == nil {
-				continue
+		notHelpAt := func(blk *ssa.BasicBlock, child ssa.Value) bool {
+			for _, f := range factsAt(blk) {
+				if f.Op != token.NEQ || f.Y == nil {
+					continue
+				}
+				x, y := f.X, f.Y
+				if _, ok := loadOfFieldNamed(x, "HelpCommandName"); ok {
+					x, y = y, x
+				}
+				cb, ok := loadOfFieldNamed(x, "Name")
+				if !ok || (child != nil && cb != child) {
+					continue
+				}
+				if b, ok := loadOfFieldNamed(y, "HelpCommandName"); ok && b == ssa.Value(fn.Params[0]) {
+					return true
+				}
 			}
-			x, y := f.X, f.Y
-			if _, ok := loadOfFieldNamed(x, "HelpCommandName"); ok {
-				x, y = y, x
-			}
-			if _, ok := loadOfFieldNamed(x, "Name"); !ok {
-				continue
-			}
-			if b, ok := loadOfFieldNamed(y, "HelpCommandName"); ok && b == ssa.Value(fn.Params[0]) {
-				helpExcluded = true
+			return false
+		}
+		helpExcluded := notHelpAt(mu.Block(), nil)
+		if !helpExcluded {
+			// the children were filtered into a list first: every element of that list was put there under the test
+			if child, ok := loadOfField(mu.Map, fCO); ok {
+				if ld, ok := child.(*ssa.UnOp); ok && ld.Op == token.MUL {
+					if ia, ok := ld.X.(*ssa.IndexAddr); ok {
+						if els, spreads, ok := elementsOf(ia.X, map[ssa.Value]bool{}); ok && len(spreads) == 0 && len(els) > 0 {
+							all := true
+							for _, e := range els {
+								sites := 0
+								eachInstr(fn, func(i2 ssa.Instruction) {
+									st, ok := i2.(*ssa.Store)
+									if !ok || st.Val != e {
+										return
+									}
+									if _, isLit := rootOfAddr(st.Addr).(*ssa.Alloc); !isLit {
+										return
+									}
+									sites++
+									if !notHelpAt(st.Block(), e) {
+										all = false
+									}
+								})
+								if sites == 0 {
+									all = false
+								}
+							}
+							helpExcluded = all
+						}
+					}
+				}
 			}
 		}
 		ru.Check(helpExcluded, "copy/help-command-excluded", w.IPos(mu), "copy guarded by child.Name != parent.HelpCommandName", "the help command inherits the level's options: a missing required option would turn `prog help` into an error instead of the help text")
@@ -649,8 +716,25 @@ func findGate(w *World, fn *ssa.Function) *gateInfo {
 	return g
 }
 
+// inlineGateEntry: for a gate that is written out in the function itself (a loop calling CheckRequired), the point
+// every execution of the gate passes, whatever the number of options: the first instruction of the outermost loop
+// of the gate code that contains the call (the loop may run zero times).
+func inlineGateEntry(g *gateInfo) ssa.Instruction {
+	b := g.check.Block()
+	var best *ssa.BasicBlock
+	for _, h := range loopHeaders(g.fn) {
+		if naturalLoop(h)[b] && (best == nil || len(naturalLoop(h)) < len(naturalLoop(best))) {
+			best = h
+		}
+	}
+	if best == nil || len(best.Instrs) == 0 {
+		return g.check
+	}
+	return best.Instrs[0]
+}
+
 func rC11DispatchOrder(w *World, r *Report) {
-	ru := r.Rule("R11.1", "must-pass-through in Dispatch: every path from entry to the CommandFn call evaluates the help test, then the required gate, and reaches the call only on the gate's nil edge", 3)
+	ru := r.Rule("R11.1", "must-pass-through in Dispatch: every path from entry to the CommandFn call evaluates the help test, then the required gate, and reaches the call only on the gate's nil edge", 2)
 	fn := w.Fn(nDispatch)
 	if fn == nil {
 		ru.Undecided("anchor", "-", "Dispatch not found")
@@ -666,7 +750,7 @@ func rC11DispatchOrder(w *World, r *Report) {
 	var gateInstr ssa.Instruction
 	var gateRes ssa.Value
 	if g := findGate(w, fn); g != nil {
-		gateInstr = g.check
+		gateInstr = inlineGateEntry(g)
 	} else {
 		for _, c := range allCalls(fn) {
 			callee := c.Common().StaticCallee()
@@ -798,7 +882,7 @@ func rC11ParseGate(w *World, r *Report) {
 	ig := buildIG(fn)
 	var gate ssa.Instruction
 	if g := findGate(w, fn); g != nil {
-		gate = g.check
+		gate = inlineGateEntry(g)
 	} else {
 		for _, c := range allCalls(fn) {
 			callee := c.Common().StaticCallee()
@@ -868,7 +952,7 @@ func rC11ParseGate(w *World, r *Report) {
 }
 
 func rC11HelpEdges(w *World, r *Report) {
-	ru := r.Rule("R11.4", "help edges: in Dispatch the help-called edge writes helpOutput(finalNode) to Writer and returns ErrorHelpCalled without reaching the command function; runHelp returns ErrorHelpCalled on every path that prints help and an error otherwise", 3)
+	ru := r.Rule("R11.4", "help edges: in Dispatch the help-called edge writes helpOutput(finalNode) to Writer and returns ErrorHelpCalled without reaching the command function; runHelp returns ErrorHelpCalled on every path that prints help and an error otherwise", 2)
 	fn := w.Fn(nDispatch)
 	if fn != nil {
 		help := helpTest(fn)
@@ -973,7 +1057,7 @@ func rC11CheckRequired(w *World, r *Report) {
 				}
 				return true
 			}
-			seen := ig.reachFromE([]int{0}, nil, edgeOK)
+			seen, taken := ig.reachEdges([]int{0}, nil, edgeOK)
 			nilRet, nonNil := 0, 0
 			wraps := true
 			for i, s := range seen {
@@ -981,37 +1065,40 @@ func rC11CheckRequired(w *World, r *Report) {
 				if !ok || !s {
 					continue
 				}
-				if isNilConst(ret.Results[0]) {
-					nilRet++
-					continue
-				}
-				nonNil++
-				c, ok := ret.Results[0].(*ssa.Call)
-				if !ok || calleeName(c) != "fmt.Errorf" {
-					wraps = false
-					continue
-				}
-				p := NewProv(w, fn).Slice(c.Call.Args[0])
-				hasW := false
-				for _, s := range p.Srcs {
-					if str, ok := constString(s.V); ok && strings.HasPrefix(str, "%w") {
-						hasW = true
+				// a single exit merges the cases in a phi: only the operands of the edges taken under this valuation count
+				for _, rv := range valuesOverEdges(ret.Results[0], taken, map[ssa.Value]bool{}) {
+					if isNilConst(rv) {
+						nilRet++
+						continue
 					}
-				}
-				els, _, _ := elementsOf(c.Call.Args[1], map[ssa.Value]bool{})
-				first := false
-				if len(els) > 0 {
-					v := els[0]
-					if mi, ok := v.(*ssa.ChangeInterface); ok {
-						v = mi.X
+					nonNil++
+					c, ok := rv.(*ssa.Call)
+					if !ok || calleeName(c) != "fmt.Errorf" {
+						wraps = false
+						continue
 					}
-					if mi, ok := v.(*ssa.MakeInterface); ok {
-						v = mi.X
+					p := NewProv(w, fn).Slice(c.Call.Args[0])
+					hasW := false
+					for _, s := range p.Srcs {
+						if str, ok := constString(s.V); ok && strings.HasPrefix(str, "%w") {
+							hasW = true
+						}
 					}
-					first = isLoadOfGlobal(v, "option.ErrorMissingRequiredOption")
-				}
-				if !hasW || !first {
-					wraps = false
+					els, _, _ := elementsOf(c.Call.Args[1], map[ssa.Value]bool{})
+					first := false
+					if len(els) > 0 {
+						v := els[0]
+						if mi, ok := v.(*ssa.ChangeInterface); ok {
+							v = mi.X
+						}
+						if mi, ok := v.(*ssa.MakeInterface); ok {
+							v = mi.X
+						}
+						first = isLoadOfGlobal(v, "option.ErrorMissingRequiredOption")
+					}
+					if !hasW || !first {
+						wraps = false
+					}
 				}
 			}
 			key := fmt.Sprintf("CheckRequired/IsRequired=%v,Called=%v", isReq, called)
